@@ -15,49 +15,52 @@
 -/
 import Gama.Lemmas.Export
 import Gama.Lemmas.ExportNet
+import Gama.Lemmas.ExportQuant
+import Gama.Lemmas.ExportPrinter
 import Gama.Lemmas.ExportExamples
 namespace Gama.Props.C13
 open Gama Gama.Export Gama.Gen.GkfAttrs Gama.Gen.GkfDoc
 
-variable {K : Type}
+variable {K : Type} {R : K → Prop}
 
 /-- parse ∘ export = id on an observation with every attribute (all six kinds, attributes zero or not,
     own or inherited standpoint, with or without extern) -/
-theorem C13_roundtrip_obs (F : NumFmt K) (hF : F.Lawful) (cf : String) (impl : K) (o : Obs K)
-    (hw : o.WF F) (hdir : o.kind = .direction → o.from_ = cf) :
+theorem C13_roundtrip_obs (F : NumFmt K) (hF : F.LawfulOn R) (cf : String) (impl : K) (o : Obs K)
+    (hw : o.WF F) (hr : o.Rep R) (hdir : o.kind = .direction → o.from_ = cf) :
     parseObs F cf F.zero impl o.kind (exportObs F true cf o).2 = .ok o :=
-  parse_export_obs F hF cf impl o hw hdir
+  parse_export_obs F hF cf impl o hw hr hdir
 
 /-- parse ∘ export = id on a whole `<obs>` cluster (any number of observations) -/
-theorem C13_roundtrip (F : NumFmt K) (hF : F.Lawful) (impl : Kind → K) (c : StandPoint K)
-    (hw : ∀ o ∈ c.obs, o.WF F) (hdir : ∀ o ∈ c.obs, o.kind = .direction → o.from_ = c.station) :
+theorem C13_roundtrip (F : NumFmt K) (hF : F.LawfulOn R) (impl : Kind → K) (c : StandPoint K)
+    (hw : ∀ o ∈ c.obs, o.WF F) (hr : ∀ o ∈ c.obs, o.Rep R) (hdir : ∀ o ∈ c.obs, o.kind = .direction → o.from_ = c.station) :
     parseCluster F impl (exportCluster F true c) = .ok c :=
-  parse_export_cluster F hF impl c hw hdir
+  parse_export_cluster F hF impl c hw hr hdir
 
 /-- exporting what was parsed from an export yields the same file -/
-theorem C13_fixed_point (F : NumFmt K) (hF : F.Lawful) (impl : Kind → K) (c : StandPoint K)
-    (hw : ∀ o ∈ c.obs, o.WF F) (hdir : ∀ o ∈ c.obs, o.kind = .direction → o.from_ = c.station) :
+theorem C13_fixed_point (F : NumFmt K) (hF : F.LawfulOn R) (impl : Kind → K) (c : StandPoint K)
+    (hw : ∀ o ∈ c.obs, o.WF F) (hr : ∀ o ∈ c.obs, o.Rep R) (hdir : ∀ o ∈ c.obs, o.kind = .direction → o.from_ = c.station) :
     (parseCluster F impl (exportCluster F true c)).map (exportCluster F true) = .ok (exportCluster F true c) := by
-  rw [parse_export_cluster F hF impl c hw hdir]; rfl
+  rw [parse_export_cluster F hF impl c hw hr hdir]; rfl
 
 /-- `<dh>`: `dist` is exported when positive (then the standard deviation is the implied one), else `stdev` -/
-theorem C13_roundtrip_dh (F : NumFmt K) (hF : F.Lawful) (sd : K → K) (pos : K → Bool) (h : HDiff K)
-    (h1 : h.from_ ≠ "") (h2 : h.to ≠ "") (hpos : pos h.dist = false → h.dist = F.zero)
-    (hsd : pos h.dist = true → h.stdev = sd h.dist) :
+theorem C13_roundtrip_dh (F : NumFmt K) (hF : F.LawfulOn R) (sd : K → K) (pos : K → Bool) (h : HDiff K)
+    (h1 : h.from_ ≠ "") (h2 : h.to ≠ "") (hr : R h.val ∧ (pos h.dist = true → R h.dist) ∧ (pos h.dist = false → R h.stdev))
+    (hpos : pos h.dist = false → h.dist = F.zero) (hsd : pos h.dist = true → h.stdev = sd h.dist) :
     parseDh F sd (exportDh F true pos h).2 = .ok h :=
-  parse_export_dh F hF sd pos h h1 h2 hpos hsd
+  parse_export_dh F hF sd pos h h1 h2 hr hpos hsd
 
 /-- `<cov-mat>`: same dim, band and elements -/
-theorem C13_roundtrip_cov (F : NumFmt K) (hF : F.Lawful) (c : Cov K) : parseCov F (exportCov F c) = some c :=
-  parse_export_cov F hF c
+theorem C13_roundtrip_cov (F : NumFmt K) (hF : F.LawfulOn R) (c : Cov K) (hr : ∀ x ∈ c.data, R x) :
+    parseCov F (exportCov F c) = some c :=
+  parse_export_cov F hF c hr
 
 /-- `<cov-mat>` of `<coordinates>` / `<vectors>` with inconsistent axes/angles: the export negates the covariances
     between mirrored (y, dy) and not mirrored components, the parser followed by `remove_inconsistency()` negates the
     same entries again: the internal matrix comes back (all dim, band, mirror patterns) -/
-theorem C13_roundtrip_cov_y_sign (F : NumFmt K) (hF : F.Lawful) (neg : K → K) (hneg : ∀ x, neg (neg x) = x)
-    (ysign : Bool) (mir : Nat → Bool) (c : Cov K) :
+theorem C13_roundtrip_cov_y_sign (F : NumFmt K) (hF : F.LawfulOn R) (neg : K → K) (hneg : ∀ x, neg (neg x) = x)
+    (hR : ∀ x, R x → R (neg x)) (ysign : Bool) (mir : Nat → Bool) (c : Cov K) (hr : ∀ x ∈ c.data, R x) :
     parseCovY F neg ysign mir (exportCovY F neg ysign mir c) = some c :=
-  parse_export_covY F hF neg hneg ysign mir c
+  parse_export_covY F hF neg hneg hR ysign mir c hr
 
 /-- F8 (pinned commit): with `fs_dh ↦ dropped` in process_angle the target height of the second target is lost.
     Stated on the route table as text so that it stays checkable after the repair: the regenerated table
@@ -66,11 +69,11 @@ theorem C13_F8_repaired : route .angle .fs_dh = some .setFsDh := by decide
 
 /-- F21 (pinned commit): `export_xml` does not write `extern`; parsing the export returns the observation
     without it -/
-theorem C13_F21_witness (F : NumFmt K) (hF : F.Lawful) (x : K) :
+theorem C13_F21_witness (F : NumFmt K) (hF : F.LawfulOn R) (x : K) (hx : R x) :
     parseObs F "A" F.zero x .distance
       (exportObs F false "A" ⟨.distance, "A", "B", "", x, x, F.zero, F.zero, F.zero, "e1"⟩).2
       = .ok ⟨.distance, "A", "B", "", x, x, F.zero, F.zero, F.zero, ""⟩ :=
-  parse_export_obs_noext_witness F hF x
+  parse_export_obs_noext_witness F hF x hx
 
 /-! ## round 3: the whole document (Model/ExportNet.lean, tables of Gen/GkfDoc.lean REGENERATED from gkfparser.cpp,
     network.cpp, observation.cpp, lcoords.h)
@@ -84,10 +87,11 @@ theorem C13_F21_witness (F : NumFmt K) (hF : F.Lawful) (x : K) :
 /-- points: same id, same status per coordinate group (fixed / free / constrained / unused for xy and for z, written as
     `fix=` / `adj=` letters in upper or lower case), same coordinates, y through `y_sign()` on the way out and
     `remove_inconsistency()` on the way in; holds for every previous `pp_id` of the parser -/
-theorem C13_roundtrip_points (C : Codec K) (hC : C.Lawful) (ys : Bool) (pp : String) (p : Point K) (hid : p.id ≠ "") :
+theorem C13_roundtrip_points (C : Codec K) (hC : C.LawfulOn R) (ys : Bool) (pp : String) (p : Point K) (hid : p.id ≠ "")
+    (hrep : p.Rep R) :
     (parsePointAttrs C pp (exportPoint C ys p)).map (fun u => (u.id, mirrorIf C ys (u.apply ⟨p.id, none, none, .unused, .unused⟩)))
       = .ok (p.id, p) := by
-  obtain ⟨u, h1, h2, h3⟩ := parse_export_point' C hC ys pp p hid
+  obtain ⟨u, h1, h2, h3⟩ := parse_export_point' C hC ys pp p hid hrep
   rw [h1]
   simp only [Except.map, h2, h3]
   cases ys
@@ -96,21 +100,22 @@ theorem C13_roundtrip_points (C : Codec K) (hC : C.Lawful) (ys : Bool) (pp : Str
 
 /-- `<parameters>`: sigma-apr, conf-pr, tol-abs, sigma-act, angles, algorithm, latitude (radians inside, gons in the
     file), ellipsoid, cov-band; the optional ones only when set; whatever the defaults of the reading network are -/
-theorem C13_roundtrip_parameters (C : Codec K) (hC : C.Lawful) (p0 p : Params K) (hw : p.WF C)
+theorem C13_roundtrip_parameters (C : Codec K) (hC : C.LawfulOn R) (p0 p : Params K) (hw : p.WF C R)
     (h0 : p0.algorithm = none ∧ p0.latitude = none ∧ p0.ellipsoid = none) :
     parseParams C p0 (exportParams C p) = .ok p :=
   parse_export_params C hC p0 p hw h0
 
 /-- `<network axes-xy angles epoch>`: all 8 × 2 conventions, hence the same `y_sign()` on both sides -/
-theorem C13_roundtrip_axes (C : Codec K) (hC : C.Lawful) (h : Head K) : parseHead C (exportHead C h) = .ok h :=
-  parse_export_head C hC h
+theorem C13_roundtrip_axes (C : Codec K) (hC : C.LawfulOn R) (h : Head K) (hrep : ∀ e, h.epoch = some e → R e) :
+    parseHead C (exportHead C h) = .ok h :=
+  parse_export_head C hC h hrep
 
 /-- a `<vectors>` cluster: ids, dx dy dz, extern, and the covariance matrix; with inconsistent axes / angles dy and the
     covariances between dy and dx / dz are written with the opposite sign and `remove_inconsistency()` (`mirrorClusterIf`)
     restores them: s·s = 1.  The parser's other state (points, earlier clusters) is untouched. -/
-theorem C13_roundtrip_vectors (C : Codec K) (hC : C.Lawful) (impl : Kind → K) (par : Params K) (ys : Bool)
+theorem C13_roundtrip_vectors (C : Codec K) (hC : C.LawfulOn R) (impl : Kind → K) (par : Params K) (ys : Bool)
     (ps : List (Point K)) (cl : List (Cluster K)) (pp : String) (vecs : List (Vec K)) (cov : Cov K)
-    (hw : (Cluster.vectors vecs cov).WF C par.sigmaApr ps) :
+    (hw : (Cluster.vectors vecs cov).WF C R par.sigmaApr ps) :
     ∃ pp', (parseItem C impl par ⟨ps.map (mirrorIf C ys), cl, pp⟩ (exportCluster' C ys true (.vectors vecs cov))).map
         (fun s => { s with clusters := s.clusters.map (mirrorClusterIf C ys) })
       = .ok ⟨ps.map (mirrorIf C ys), cl.map (mirrorClusterIf C ys) ++ [.vectors vecs cov], pp'⟩ := by
@@ -123,9 +128,9 @@ theorem C13_roundtrip_vectors (C : Codec K) (hC : C.Lawful) (impl : Kind → K) 
 
 /-- a `<coordinates>` cluster: ids, x y z, extern of the cluster, covariance matrix with the y_sign conjugation; the
     points it names keep their coordinates (`agrees`: the parser stores the observed coordinates in PointData) -/
-theorem C13_roundtrip_coordinates (C : Codec K) (hC : C.Lawful) (impl : Kind → K) (par : Params K) (ys : Bool)
+theorem C13_roundtrip_coordinates (C : Codec K) (hC : C.LawfulOn R) (impl : Kind → K) (par : Params K) (ys : Bool)
     (ps : List (Point K)) (cl : List (Cluster K)) (pp : String) (ext : String) (pts : List (CPoint K)) (cov : Cov K)
-    (hw : (Cluster.coords ext pts cov).WF C par.sigmaApr ps) :
+    (hw : (Cluster.coords ext pts cov).WF C R par.sigmaApr ps) :
     ∃ pp', (parseItem C impl par ⟨ps.map (mirrorIf C ys), cl, pp⟩ (exportCluster' C ys true (.coords ext pts cov))).map
         (fun s => { s with clusters := s.clusters.map (mirrorClusterIf C ys) })
       = .ok ⟨ps.map (mirrorIf C ys), cl.map (mirrorClusterIf C ys) ++ [.coords ext pts cov], pp'⟩ := by
@@ -138,13 +143,13 @@ theorem C13_roundtrip_coordinates (C : Codec K) (hC : C.Lawful) (impl : Kind →
 
 /-- the whole document: reading what export_xml wrote gives the network back (without its unused points), for all
     networks, any number of points and clusters of the four kinds, all axes / angle conventions.  `_partial`: gons. -/
-theorem C13_roundtrip_network_partial (C : Codec K) (hC : C.Lawful) (impl : Kind → K) (par0 : Params K) (n : Net K)
-    (hw : n.WF C) : parseNet C impl par0 (exportNet C n) = .ok (canon n) :=
+theorem C13_roundtrip_network_partial (C : Codec K) (hC : C.LawfulOn R) (impl : Kind → K) (par0 : Params K) (n : Net K)
+    (hw : n.WF C R) : parseNet C impl par0 (exportNet C n) = .ok (canon n) :=
   parse_export_net C hC impl par0 n hw
 
 /-- exporting what was read from an export yields the same document -/
-theorem C13_fixed_point_network_partial (C : Codec K) (hC : C.Lawful) (impl : Kind → K) (par0 : Params K) (n : Net K)
-    (hw : n.WF C) : (parseNet C impl par0 (exportNet C n)).map (exportNet C) = .ok (exportNet C n) := by
+theorem C13_fixed_point_network_partial (C : Codec K) (hC : C.LawfulOn R) (impl : Kind → K) (par0 : Params K) (n : Net K)
+    (hw : n.WF C R) : (parseNet C impl par0 (exportNet C n)).map (exportNet C) = .ok (exportNet C n) := by
   rw [parse_export_net C hC impl par0 n hw]
   simp [Except.map, exportNet_canon]
 
@@ -152,12 +157,37 @@ theorem C13_fixed_point_network_partial (C : Codec K) (hC : C.Lawful) (impl : Ki
 theorem C13_export_skips_unused (C : Codec K) (n : Net K) : exportNet C (canon n) = exportNet C n :=
   exportNet_canon C n
 
+/-! ## a printer with finitely many digits (`Codec.Printer`: `rd (fmt x) = some (q x)`, `fmt (q x) = fmt x`)
+
+  `R x := q x = x` are the numbers the printer gives back exactly; every number read from a printed file is one, so the
+  theorems above apply verbatim to the second, third, … export.  For the first export of arbitrary numbers: -/
+
+/-- the exported document does not change when every number of the network is replaced by its printed-and-read value -/
+theorem C13_export_quantised {C : Codec K} {q : K → K} (P : C.Printer q) (n : Net K) (hg : n.par.gons = true) :
+    exportNet C (quantNet C q n) = exportNet C n :=
+  exportNet_quant P n hg
+
+/-- reading the export gives the network with every number quantised (`quantNet`: `x ↦ q x`; the latitude through its
+    unit conversion; the standard deviation of a height difference given by its length recomputed from the printed
+    length), provided the quantised values still pass the parser's guards (`Net.WF` of the quantised network) -/
+theorem C13_roundtrip_network_printer_partial {C : Codec K} {q : K → K} (P : C.Printer q) (impl : Kind → K)
+    (par0 : Params K) (n : Net K) (hw : (quantNet C q n).WF C (fun x => q x = x)) :
+    parseNet C impl par0 (exportNet C n) = .ok (canon (quantNet C q n)) :=
+  parse_export_net_printer P impl par0 n hw
+
+/-- … and exporting that again gives the same document: the export is a fixed point from the first round on -/
+theorem C13_fixed_point_network_printer_partial {C : Codec K} {q : K → K} (P : C.Printer q) (impl : Kind → K)
+    (par0 : Params K) (n : Net K) (hw : (quantNet C q n).WF C (fun x => q x = x)) :
+    (parseNet C impl par0 (exportNet C n)).map (exportNet C) = .ok (exportNet C n) := by
+  rw [parse_export_net_printer P impl par0 n hw]
+  simp [Except.map, exportNet_canon, exportNet_quant P n hw.gons]
+
 /-- F27 repaired: the latitude is written in the unit process_parameters reads (false on the pinned tree) -/
 theorem C13_F27_repaired : latitudeInGons = true := by decide
 
 /-! ## non-vacuity: numbers = their decimal text (fmt = id), which satisfies the hypothesis -/
 
-example : strFmt.Lawful := ⟨fun _ => rfl, fun x => by simp [strFmt]⟩
+example : strFmt.LawfulOn (fun _ => True) := ⟨fun _ _ => rfl, fun x => by simp [strFmt]⟩
 
 -- an angle with all three heights and extern, standpoint different from the cluster's
 example : (exportObs strFmt true "S" ⟨.angle, "A", "B", "C", "100", "10", "1.5", "1.2", "1.7", "e 1"⟩).2 =
@@ -186,8 +216,8 @@ example : (exportCovY strFmt (fun s => "-" ++ s) true (fun i => i == 2) ⟨3, 2,
 
 /-! ## non-vacuity, whole document -/
 
-example : unaryCodec.Lawful :=
-  ⟨⟨fun x => by simp [unaryCodec], fun x => by simp [unaryCodec]⟩, fun _ => rfl,
+example : unaryCodec.LawfulOn (fun _ => True) :=
+  ⟨⟨fun x _ => by simp [unaryCodec], fun x => by simp [unaryCodec]⟩, fun _ => rfl, fun _ _ => trivial,
    fun i hi => by simp [unaryCodec]; omega, fun _ => rfl, fun _ => rfl,
    fun x => by
      intro h
@@ -207,5 +237,13 @@ example : (exportParams strCodec ⟨"10", "0.95", "1000", false, true, none, non
 -- the sample network (every cluster kind, a constrained and an unused point, en + left-handed = inconsistent) meets the hypotheses
 example : sampleNet.head.ys = true := by decide
 example : (canon sampleNet).points.map (·.id) = ["A", "B"] := by decide
+
+-- a printer with a fixed number of decimal digits (units of 10⁻⁴ printed in units of 10⁻³) satisfies the hypotheses,
+-- is lossy, and the quantised sample network (inconsistent axes, a constrained and an unused point, a vectors cluster)
+-- meets the side condition
+example : decCodec.Printer decQ := decCodec_printer
+example : decCodec.rd (decCodec.fmt 1001) = some 1010 := by rw [decCodec_printer.rd_fmt]; rfl
+example : (quantNet decCodec decQ lossyNet).WF decCodec (fun x => decQ x = x) := lossyNet_WF
+example : lossyNet.head.ys = true := by decide
 
 end Gama.Props.C13
